@@ -824,6 +824,12 @@ fn verif_actor_step_is_one_atomic_handler_step() {
         CALLS.store(0, Ordering::SeqCst);
         let s3b = m.next_state(&s0, ActorModelAction::SelectRandom { actor: a0, key: "k".to_string(), random: 5 }).unwrap_or_else(|| bad("random selection yields a transition"));
         if CALLS.load(Ordering::SeqCst) != 1 || *s3b.actor_states[0] != 1005 || s3b.network.len() != s0.network.len() { bad("exactly one handler invocation per transition (random without commands)"); }
+        // ---- sends to a crashed actor still enter the network (they stay there undelivered)
+        {
+            let sc = m.next_state(&s0, ActorModelAction::Crash(a1)).unwrap_or_else(|| bad("crash yields a transition"));
+            let r = m.next_state(&sc, ActorModelAction::Deliver { src: a1, dst: a0, msg: 3 }).unwrap_or_else(|| bad("delivery after a crash of another actor"));
+            if r.network.len() != 3 || r.history.len() != 3 { bad("every Send command is applied: messages addressed to a crashed actor enter the network and the history"); }
+        }
         // ---- Crash / Drop: no handler
         CALLS.store(0, Ordering::SeqCst);
         let s4 = m.next_state(&s0, ActorModelAction::Crash(a0)).unwrap_or_else(|| bad("crash yields a transition"));
